@@ -80,7 +80,8 @@ def strategy(tier: str, pid: str = "C20") -> st.SearchStrategy[Any]:
     del pid
     max_ops, max_comps = (40, 3) if tier == "quick" else (120, 4)
     sub = st.tuples(st.just("sub"), st.integers(0, 3), st.sampled_from(["a", "b", "c"]), st.integers(0, 3)).map(list)
-    msg = st.tuples(st.just("msg"), st.integers(0, 3)).map(list)
+    # third element: index of a metric that this message reports as NaN (-1: all finite)
+    msg = st.tuples(st.just("msg"), st.integers(0, 3), st.sampled_from([-1, -1, -1, -1, 0, 1, 2, 3])).map(list)
     op = st.one_of(
         sub, sub, sub, msg, msg, msg, msg, msg, msg,
         st.just(["settle"]),
@@ -101,6 +102,7 @@ def run_case(case: Any, pid: str) -> Verdict:
     flags = {"mid": False, "dup": False, "mid_others": False}
     subs: dict[str, dict[str, Any]] = {}
     sent: dict[int, int] = {c: 0 for c in range(ncomp)}  # messages sent per component
+    nan_at: dict[tuple[int, int], int] = {}  # (component, message number) -> metric index reported as NaN
     unknown_rx: list[Any] = []
 
     async def scenario() -> None:
@@ -154,8 +156,12 @@ def run_case(case: Any, pid: str) -> Verdict:
                     sent[c] += 1
                     k = sent[c]
                     kwargs: dict[str, Any] = {}
+                    nan_idx = op[2] if len(op) > 2 else -1
+                    if nan_idx >= 0:
+                        nan_at[(c, k)] = nan_idx
+                        v.labels.add("message_with_a_nan_metric")
                     for midx, (_, setter) in enumerate(CATS[comps[c]][2]):
-                        field = setter(100.0 * k + midx)
+                        field = setter(float("nan") if midx == nan_idx else 100.0 * k + midx)
                         for key, val in field.items():
                             if key in kwargs and isinstance(val, tuple):
                                 kwargs[key] = tuple(a if a != 0.0 else b for a, b in zip(val, kwargs[key]))
@@ -196,16 +202,22 @@ def run_case(case: Any, pid: str) -> Verdict:
         c, midx = sub["comp"], sub["midx"]
         ks = []
         for s in sub["got"]:
+            # the message is identified by its timestamp (T0 + k s), the metric by the value
+            k = round((s.timestamp - world.T0).total_seconds())
+            ks.append(k)
+            if s.timestamp != world.T0 + timedelta(seconds=k):
+                v.fail(f"{name}: sample stamped {s.timestamp} is not the timestamp of any message")
+                continue
             if s.value is None:
-                v.fail(f"{name}: sample without value {s}")
+                v.fail(f"{name}: sample of message {k} has no value (the message carried "
+                       f"{'NaN' if nan_at.get((c, k)) == midx else 100.0 * k + midx} for this metric)")
                 continue
             raw = s.value.base_value
-            k = int(raw) // 100
-            ks.append(k)
-            if int(raw) % 100 != midx or raw != 100.0 * k + midx:
-                v.fail(f"{name}: sample value {raw} is not this stream's metric (index {midx}) of any message")
-            if s.timestamp != world.T0 + timedelta(seconds=k):
-                v.fail(f"{name}: sample of message {k} stamped {s.timestamp}")
+            if nan_at.get((c, k)) == midx:
+                if raw == raw:
+                    v.fail(f"{name}: message {k} carried NaN for this metric, the sample carries {raw}")
+            elif raw != 100.0 * k + midx:
+                v.fail(f"{name}: sample of message {k} has value {raw}, this stream's metric (index {midx}) was {100.0 * k + midx}")
         total = sent[c]
         k_hi = sub["k_hi"] if sub["k_hi"] is not None else total + 1
         if ks:
